@@ -1099,6 +1099,44 @@ BAD_RIDS = [1000, "b1", 1001, "b2"]
 OUT_IDS = ["o1", 900]
 
 
+def _near_pairs():
+    """(explicit id of our outstanding request, id of the stray response): near-misses under every plausible
+    normalisation of an id (JSON-RPC ids are typed and compared exactly). 1 vs 1.0 / True are excluded (equal
+    as dict keys in Python: listed candidate)."""
+    base = [1, 0, 7, 10, 900, 2 ** 53, "1", "0", "01", "007", "a", "A", "ab", "Req-1", "o1", ""]
+    norm = [
+        ("int->str", lambda i: str(i) if isinstance(i, int) else None),
+        ("str->int", lambda i: int(i) if isinstance(i, str) and i.isdigit() and str(int(i)) == i else None),
+        ("str->int-lenient", lambda i: int(i) if isinstance(i, str) and i.isdigit() and str(int(i)) != i else None),
+        ("int->padded", lambda i: "0" + str(i) if isinstance(i, int) else None),
+        ("strip-zeros", lambda i: str(int(i)) if isinstance(i, str) and i.isdigit() and str(int(i)) != i else None),
+        ("upper", lambda i: i.upper() if isinstance(i, str) and i.upper() != i else None),
+        ("lower", lambda i: i.lower() if isinstance(i, str) and i.lower() != i else None),
+        ("swapcase", lambda i: i.swapcase() if isinstance(i, str) and i.swapcase() != i else None),
+        ("space-before", lambda i: " " + i if isinstance(i, str) else None),
+        ("space-after", lambda i: i + " " if isinstance(i, str) else None),
+        ("space-around", lambda i: " " + str(i) + " "),
+        ("tab-newline", lambda i: "\t" + i + "\n" if isinstance(i, str) else None),
+        ("empty<->0", lambda i: 0 if i == "" else "" if isinstance(i, int) and i == 0 else None),
+    ]
+    pairs, seen = [], set()
+    for i in base:
+        for n, fn in norm:
+            j = fn(i)
+            if j is None or (type(j), j) == (type(i), i):
+                continue
+            # both directions: the stray id is the normal form of the pending one, and the reverse
+            for a, b in ((i, j), (j, i)):
+                k = (type(a).__name__, a, type(b).__name__, b)
+                if k not in seen:
+                    seen.add(k)
+                    pairs.append((n, a, b))
+    return pairs
+
+
+NEAR_PAIRS = _near_pairs()
+
+
 class C06(core.Property):
     id = "C06"
     modules = ["Proofs.C06Lists", "Proofs.C06Sim", "Proofs.C06Sim2", "Proofs.C06Sim3", "Proofs.C06Sim4",
@@ -1387,6 +1425,57 @@ class C06(core.Property):
                           items, [], ["version/resp-known-id"]))
         return self._interleave(chk, scens)
 
+    def gen_near_miss(self, chk):
+        """A response to an id nobody asked about, next to an outstanding request of ours whose explicit id is a
+        near-miss of it (NEAR_PAIRS): result- and error-shaped strays, before / after the request goes out and
+        after its genuine answer; the genuine answer follows. S: each stray is reported once, the request is
+        resolved by its genuine answer only (the erased run)."""
+        rng = chk.rng
+        scens = []
+        pairs = list(NEAR_PAIRS)
+        if chk.quick:
+            # every normalisation at least three times, every pair of the int<->str families
+            keep = [p for p in pairs if p[0] in ("int->str", "str->int", "empty<->0")]
+            by = {}
+            for p in pairs:
+                by.setdefault(p[0], []).append(p)
+            for n in sorted(by):
+                keep += [p for p in rng.sample(by[n], min(4, len(by[n]))) if p not in keep]
+            pairs = keep
+        shapes = [("result", False, "ok"), ("error", True, "ok"), ("error-bad", True, "bad")]
+        a = 0
+        for n, oid, sid in pairs:
+            for sh, (sname, serr, sps) in enumerate(shapes):
+                if sname == "error-bad" and (a % 4):
+                    a += 1
+                    continue
+                good = self._good(rng, rng.randint(1, 3), allow_shutdown=False)
+                good = [g for g in good if g[0] != "send" and not (g[0] == "recv" and g[1]["t"] == "resp")]
+                stray = lambda: (1, ["recv", {"t": "resp", "id": sid, "ver": True, "err": serr, "ps": sps}])
+                other = lambda: (1, ["recv", {"t": "resp", "id": sid, "ver": True, "err": not serr, "ps": "ok"}])
+                genuine = (0, ["recv", {"t": "resp", "id": oid, "ver": True, "err": (a % 5 == 0), "ps": "ok"}])
+                mid = [(0, ["send", oid]), stray()]
+                v = a % 6
+                if v == 1:
+                    mid = [stray()] + mid           # also before the request exists
+                elif v == 2:
+                    mid.append(other())             # both shapes while it is outstanding
+                mid.append(genuine)
+                if v == 3:
+                    mid.append(stray())             # and once it has been answered
+                items = [(0, g) for g in good]
+                p = rng.randint(0, len(items))
+                items[p:p] = mid
+                tag = 700
+                for q in (p, p + len(mid) + 1):     # a good neighbour on each side
+                    tag += 1
+                    items.insert(q, (0, ["recv", {"t": "notif", "tag": tag, "ver": True, "ps": "ok",
+                                                  "m": ["user", B("sync", ["ret", 1])]}]))
+                cat = ["resp/near-miss-" + sname, "near/" + n]
+                scens.append((self._cfg(rng, a), items, [], cat))
+                a += 1
+        return self._interleave(chk, scens)
+
     def gen_streams(self, chk, n):
         rng = chk.rng
         cases = []
@@ -1418,6 +1507,7 @@ class C06(core.Property):
         cases += self.gen_random(chk, chk.n(800, 12000))
         cases += self.gen_streams(chk, chk.n(200, 3000))
         cases += self.gen_finding(chk, chk.n(10, 100))
+        cases += self.gen_near_miss(chk)
         if not chk.quick:
             cases += self.gen_pairs(chk)
         return self.finish(cases)
